@@ -48,8 +48,10 @@ CLAIMED = {
         'lengths (model level). Tie: skeleton (classes, object identities, merged parameters, scalar position) of '
         'reduce() on every documented pattern in 9 construction contexts, embedded at every position of typed contexts, '
         'pairs of patterns and sampled chains, compared with the model; oracle re-applies the real rules to the result.',
-        'Partial: the placement of the remaining scalar on the smaller side is checked by correspondence and oracle, not '
-        'proved. Trusts the table translator, harness-assigned object identities, the harness, Coq kernel.',
+        'The placement clause is proved too (Props/C07Side.v): reduced_chain_scalar_placed / reduce_composition_scalar_placed / '
+        'scalar_on_smaller_side - after reduction of a chain-compatible composition the single remaining scalar is the first '
+        'factor when out_size <= in_size of the non-scalar ends and the last factor otherwise (tie -> left, as the code). '
+        'Trusts the table translator, harness-assigned object identities, the harness, Coq kernel.',
         'DESIGN.md section 4, C07',
     ),
     'C09': (
@@ -303,7 +305,9 @@ CLAIMED = {
         'x_generic / Exec.mat.',
         'Partial: override_eq_generic carries the premises HON (C05 honesty, derivable via honesty_premise_from_C05) and the '
         'leaf-level premises HOV / HRESH / HINV / HSOLVE; array-level '
-        'leaf overrides rest on C09/C11 (their own models); lin_facts not discharged for Exec.leafsem. Trusts measured leaf '
+        'leaf overrides rest on C09/C11 (their own models). lin_facts IS discharged for the executable semantics '
+        '(Props/ExecFacts.v: exec_lin_facts, exec_denote_linear, exec_apply_is_matvec under the decidable table_okb, which the '
+        'C01 run evaluates on every real expression). Trusts measured leaf '
         'matrices, textbook hstack/vstack/block_diag/inv, float32 snapped to rationals; dtypes not modelled here (C05).',
         'DESIGN.md section 4, C04',
     ),
